@@ -2,6 +2,8 @@ package webrtc
 
 import (
 	"fmt"
+	"net"
+	"runtime"
 	"sort"
 	"strings"
 	"sync"
@@ -123,6 +125,15 @@ type c24Rec struct {
 	mu          sync.Mutex
 	evs         []c24Ev
 	lateHandler bool // the handler was registered after gathering had already ended
+	// lateDecided: ... and by then the end-of-gathering callback had already taken its decision (with the pool still
+	// active that decision is "leave the nil to the flush"), so the no-op handler it loaded cannot swallow anything.
+	lateDecided bool
+	sldSeen     bool   // the first SetLocalDescription of this case was issued
+	order       string // whether the end-of-gathering callback had decided before the first SetLocalDescription
+	cleanup     []func()
+	gate        *c24Gate
+	pool        uint8
+	newErr      error
 }
 
 func (r *c24Rec) handler(c *ICECandidate) {
@@ -168,32 +179,259 @@ func (r *c24Rec) nils() int {
 	return n
 }
 
+// ---- gathering configurations -------------------------------------------------------------------------------------
+//
+// The statement quantifies over whatever the gathering produces: several candidates, one, or none at all (then the
+// handler stream is just the one nil). c24Gather is a point of the configuration space that decides the yield: transport
+// policy (no ICE server is ever configured, so relay / nohost have nothing to gather from), interface filter, IP filter,
+// loopback inclusion, network types (TCP with or without a TCP mux), 1:1 NAT mapping as host or srflx candidates.
+// The yield is never predicted by the monitor: it is read off the agent's own candidate list at the end.
+type c24Gather struct {
+	policy string // all | relay | nohost
+	iface  string // lo | all | non-lo | none
+	ipf    string // off | all | loopback | non-loopback | none
+	loop   bool   // SetIncludeLoopbackCandidate
+	nets   string // udp4 | udp4+udp6 | udp6 | tcp4 | udp4+tcp4 | all
+	nat    string // off | host | srflx
+	tcpMux bool
+}
+
+func (g c24Gather) String() string {
+	return fmt.Sprintf("policy=%s iface=%s ipf=%s loopback=%v nets=%s nat=%s tcpmux=%v", g.policy, g.iface, g.ipf, g.loop, g.nets, g.nat, g.tcpMux)
+}
+
+// c24DefaultGather is the configuration all schedules ran with before the configuration class existed.
+func c24DefaultGather() c24Gather {
+	return c24Gather{policy: "all", iface: "all", ipf: "off", loop: true, nets: "udp4", nat: "off"}
+}
+
+// c24GenGather draws a configuration: permissive knobs first, then (half of the time) one or two knobs that shrink the
+// yield, often to nothing.
+func c24GenGather(r *kit.Rand) c24Gather {
+	g := c24Gather{policy: "all", loop: true}
+	g.iface = kit.Pick(r, []string{"lo", "all", "all", "non-lo"})
+	g.ipf = kit.Pick(r, []string{"off", "off", "all", "loopback", "non-loopback"})
+	g.nets = kit.Pick(r, []string{"udp4", "udp4", "udp4+udp6", "udp4+tcp4", "all"})
+	g.nat = kit.Pick(r, []string{"off", "off", "off", "host", "srflx"})
+	if r.Bool() {
+		for k, n := 0, 1+r.Intn(2); k < n; k++ {
+			switch r.Intn(7) {
+			case 0:
+				g.policy = "relay"
+			case 1:
+				g.policy = "nohost"
+			case 2:
+				g.iface = "none"
+			case 3:
+				g.ipf = "none"
+			case 4:
+				g.loop = false
+			case 5:
+				g.nets = kit.Pick(r, []string{"tcp4", "udp6"})
+			default:
+				g.iface, g.ipf = "lo", "non-loopback"
+			}
+		}
+	}
+	if strings.Contains(g.nets, "tcp") || g.nets == "all" {
+		g.tcpMux = r.Chance(0.6)
+	}
+	// (a 1:1 NAT mapping for a candidate type that the transport policy excludes is rejected as a configuration error)
+	if (g.nat == "host" && g.policy != "all") || (g.nat == "srflx" && g.policy == "relay") {
+		g.nat = "off"
+	}
+
+	return g
+}
+
+// c24InGatherCycle: is the caller running inside the agent's gathering cycle (as opposed to the agent's construction,
+// which consults the same filters synchronously inside NewPeerConnection / SetLocalDescription)?
+func c24InGatherCycle() bool {
+	pcs := make([]uintptr, 48)
+	n := runtime.Callers(2, pcs)
+	frames := runtime.CallersFrames(pcs[:n])
+	for {
+		f, more := frames.Next()
+		if strings.Contains(f.Function, "(*Agent).gatherCandidates") {
+			return true
+		}
+		if !more {
+			return false
+		}
+	}
+}
+
+// c24Gate holds the gathering cycle inside the application's interface filter (a user callback that takes its time)
+// until the monitor opens it: this is how SetLocalDescription / the handler registration are placed BEFORE a gathering
+// that would otherwise be over within microseconds (nothing to gather). Bounded: an unopened gate gives way after d.
+type c24Gate struct {
+	ch      chan struct{}
+	once    sync.Once
+	reached chan struct{}
+	rOnce   sync.Once
+}
+
+func c24NewGate() *c24Gate { return &c24Gate{ch: make(chan struct{}), reached: make(chan struct{})} }
+
+func (g *c24Gate) open() {
+	if g != nil {
+		g.once.Do(func() { close(g.ch) })
+	}
+}
+
+func (g *c24Gate) wait(d time.Duration) {
+	g.rOnce.Do(func() { close(g.reached) })
+	select {
+	case <-g.ch:
+	case <-time.After(d):
+	}
+}
+
+func (g c24Gather) transportPolicy() ICETransportPolicy {
+	switch g.policy {
+	case "relay":
+		return ICETransportPolicyRelay
+	case "nohost":
+		return ICETransportPolicyNoHost
+	default:
+		return ICETransportPolicyAll
+	}
+}
+
+// apply configures the SettingEngine (on top of the rig's: no mDNS, silent logger).
+func (g c24Gather) apply(se *SettingEngine, gate *c24Gate, rec *c24Rec) {
+	keepIface := func(name string) bool {
+		switch g.iface {
+		case "lo":
+			return name == "lo"
+		case "non-lo":
+			return name != "lo"
+		case "none":
+			return false
+		default:
+			return true
+		}
+	}
+	se.SetInterfaceFilter(func(name string) bool {
+		if gate != nil && c24InGatherCycle() {
+			gate.wait(10 * time.Second)
+		}
+
+		return keepIface(name)
+	})
+	switch g.ipf {
+	case "all":
+		se.SetIPFilter(func(net.IP) bool { return true })
+	case "none":
+		se.SetIPFilter(func(net.IP) bool { return false })
+	case "loopback":
+		se.SetIPFilter(func(ip net.IP) bool { return ip.IsLoopback() })
+	case "non-loopback":
+		se.SetIPFilter(func(ip net.IP) bool { return !ip.IsLoopback() })
+	default:
+	}
+	se.SetIncludeLoopbackCandidate(g.loop)
+	switch g.nets {
+	case "udp4+udp6":
+		se.SetNetworkTypes([]NetworkType{NetworkTypeUDP4, NetworkTypeUDP6})
+	case "udp6":
+		se.SetNetworkTypes([]NetworkType{NetworkTypeUDP6})
+	case "tcp4":
+		se.SetNetworkTypes([]NetworkType{NetworkTypeTCP4})
+	case "udp4+tcp4":
+		se.SetNetworkTypes([]NetworkType{NetworkTypeUDP4, NetworkTypeTCP4})
+	case "all":
+		se.SetNetworkTypes([]NetworkType{NetworkTypeUDP4, NetworkTypeUDP6, NetworkTypeTCP4, NetworkTypeTCP6})
+	default:
+		se.SetNetworkTypes([]NetworkType{NetworkTypeUDP4})
+	}
+	switch g.nat {
+	case "host":
+		se.SetNAT1To1IPs([]string{"198.51.100.7"}, ICECandidateTypeHost)
+	case "srflx":
+		se.SetNAT1To1IPs([]string{"198.51.100.7"}, ICECandidateTypeSrflx)
+	default:
+	}
+	if g.tcpMux {
+		if l, err := net.ListenTCP("tcp4", &net.TCPAddr{IP: net.IPv4(127, 0, 0, 1)}); err == nil {
+			mux := NewICETCPMux(rigNullLogger{}, l, 8)
+			se.SetICETCPMux(mux)
+			rec.cleanup = append(rec.cleanup, func() { _ = mux.Close(); _ = l.Close() })
+		}
+	}
+}
+
+// c24NilDecided (white-box, harness synchronisation only — never an oracle input): has the end-of-gathering callback of
+// the current gathering taken its decision (emit the nil itself / leave it to the flush)? The flag is set in the same
+// critical section as that decision.
+func c24NilDecided(pc *PeerConnection) bool {
+	g := pc.iceGatherer
+	g.candidatePoolLock.Lock()
+	defer g.candidatePoolLock.Unlock()
+
+	return g.gatheringComplete
+}
+
+// c24Cfg: what a schedule is run with.
+type c24Cfg struct {
+	g        c24Gather
+	gated    bool          // hold the gathering cycle until the handler is registered (see c24Gate)
+	pool     uint8         // pool size, for the schedules that do not fix it
+	afterEnd bool          // renegotiation schedule with a pool: first SetLocalDescription after the end of gathering
+	delay    time.Duration // seeded-timing schedule: pause before SetLocalDescription
+	cls      bool          // case of the configuration class (signatures carry pool and observed yield)
+}
+
 func TestVerifC24(t *testing.T) { //nolint:cyclop,gocognit,maintidx
-	run := kit.Start(t, "C24", "real PeerConnections with host candidates (loopback + eth0), candidate pool size 0 and 1; scripted schedules park the "+
-		"end-of-gathering callback at each of its three yield points while SetLocalDescription flushes the pool, park the flush at each of its three yield "+
+	run := kit.Start(t, "C24", "real PeerConnections, candidate pool size 0 and 1. (a) host candidates on loopback + eth0: scripted schedules park the "+
+		"end-of-gathering callback at each of its yield points while SetLocalDescription flushes the pool, park the flush at each of its three yield "+
 		"points while gathering completes, and park a candidate callback during the flush; plus perturbed random timing of SetLocalDescription. "+
-		"Non-trivial = ≥1 candidate and a nil were reported and the run used a pool or a scripted point; distinct by schedule + event shape")
+		"(b) configuration class: the same schedules (plus SetLocalDescription before the gathering cycle starts, and renegotiation with a pool) "+
+		"crossed with seeded gathering configurations — transport policy all/relay/nohost without servers, interface filter, IP filter, loopback "+
+		"inclusion, network types incl. TCP with/without mux, 1:1 NAT as host/srflx — whose yield (0, 1 or several candidates) is read off the "+
+		"agent's own candidate list. Non-trivial = the nil was reported (with zero candidates that is the whole stream) and the run used a pool or "+
+		"a scripted point; distinct by schedule + pool + event shape")
 	defer run.Finish()
 	sched := kit.NewSched(kit.Seed())
 	defer sched.Uninstall()
 	const wd = 10 * time.Second
 
-	newPC := func(pool uint8, rec *c24Rec) *PeerConnection {
-		pc := rigMustPC(rigOpts{
-			Cfg: Configuration{ICECandidatePoolSize: pool},
-			SE: func(se *SettingEngine) {
-				se.SetInterfaceFilter(func(string) bool { return true }) // lo + eth0: several host candidates
-			},
-		})
+	// newPC creates the PeerConnection under test with gathering configuration cfg.g and registers the recording handler.
+	// With cfg.gated the gathering cycle is held (inside the interface filter) until the gate is opened: right after the
+	// handler registration, or by the schedule itself when holdGate is set.
+	newPC := func(pool uint8, rec *c24Rec, cfg c24Cfg, holdGate bool) *PeerConnection {
+		rec.pool = pool
+		if cfg.gated {
+			rec.gate = c24NewGate()
+		}
 		before := sched.Passes("gather.nil.stateComplete")
+		pc, err := rigNewPC(rigOpts{
+			Cfg: Configuration{ICECandidatePoolSize: pool, ICETransportPolicy: cfg.g.transportPolicy()},
+			SE:  func(se *SettingEngine) { cfg.g.apply(se, rec.gate, rec) },
+		})
+		if err != nil {
+			if !cfg.cls {
+				panic(fmt.Sprintf("c24: NewPeerConnection: %v", err))
+			}
+			rec.newErr = err
+
+			return nil
+		}
 		pc.OnICECandidate(rec.handler)
 		if sched.Passes("gather.nil.stateComplete") != before || pc.iceGatherer.State() == ICEGathererStateComplete {
 			// With a candidate pool gathering starts inside NewPeerConnection; here it had already reached its end before
 			// the handler could be registered, so the end-of-gathering callback holds the no-op handler it loaded at its
-			// start. What the (late) handler sees then says nothing about the property: the case is not judged.
+			// start. What the (late) handler sees then says nothing about the property: the case is not judged — unless
+			// that callback has already decided (the pool is still active: it left the nil to the flush, which loads the
+			// handler afresh).
+			decided := c24NilDecided(pc)
 			rec.mu.Lock()
 			rec.lateHandler = true
+			rec.lateDecided = decided
 			rec.mu.Unlock()
+		}
+		if !holdGate {
+			rec.gate.open()
 		}
 		if _, err := pc.CreateDataChannel("c24", nil); err != nil {
 			panic(err)
@@ -201,42 +439,74 @@ func TestVerifC24(t *testing.T) { //nolint:cyclop,gocognit,maintidx
 
 		return pc
 	}
-	setLocal := func(pc *PeerConnection) error {
+	finish := func(pc *PeerConnection, rec *c24Rec) {
+		rec.gate.open()
+		rigClose(pc)
+		for _, f := range rec.cleanup {
+			f()
+		}
+	}
+	setLocal := func(pc *PeerConnection, rec *c24Rec) error {
 		offer, err := pc.CreateOffer(nil)
 		if err != nil {
 			return err
 		}
+		rec.mu.Lock()
+		first := !rec.sldSeen
+		rec.sldSeen = true
+		rec.mu.Unlock()
+		if first {
+			order := "SLD<nil-decided"
+			if c24NilDecided(pc) {
+				order = "nil-decided<SLD"
+			}
+			rec.mu.Lock()
+			rec.order = order
+			rec.mu.Unlock()
+		}
 
 		return pc.SetLocalDescription(offer)
 	}
+	// awaitNil waits (watchdog) for the nil marker. It gives up early once the stream is quiescent without one: every
+	// SetLocalDescription of the case has returned (the flush emits synchronously) and the end-of-gathering callback has
+	// decided — after that decision the nil is at most one yield point away — plus a generous settle.
+	awaitNil := func(pc *PeerConnection, rec *c24Rec) bool {
+		var decidedAt time.Time
+		kit.Eventually(wd, func() bool {
+			if rec.nils() >= 1 {
+				return true
+			}
+			if decidedAt.IsZero() {
+				if c24NilDecided(pc) {
+					decidedAt = time.Now()
+				}
+
+				return false
+			}
+
+			return time.Since(decidedAt) > time.Second
+		})
+
+		return rec.nils() >= 1
+	}
 	// evaluate runs the oracles once gathering is complete and the handler stream has settled.
-	evaluate := func(idx int, label string, pool uint8, pc *PeerConnection, rec *c24Rec, scripted bool) {
+	evaluate := func(idx int, label string, pc *PeerConnection, rec *c24Rec, scripted bool, cfg c24Cfg) {
+		pool := rec.pool
 		rec.mu.Lock()
-		late := rec.lateHandler
+		late := rec.lateHandler && !rec.lateDecided
+		order := rec.order
 		rec.mu.Unlock()
 		if late && label != "flush-after-completion" && label != "renegotiate-after-completion" {
 			run.Inconclusive("gathering-ended-before-handler-registered:" + label)
 
 			return
 		}
-		if !kit.Eventually(wd, func() bool { return pc.ICEGatheringState() == ICEGatheringStateComplete && rec.nils() >= 1 }) {
-			if pc.ICEGatheringState() == ICEGatheringStateComplete {
-				// gathering finished but no nil ever arrived: decisive after a generous settle
-				time.Sleep(50 * time.Millisecond)
-				if rec.nils() == 0 {
-					evs := rec.snapshot()
-					run.Violation("no-end-of-gathering:"+label, fmt.Sprintf("%s pool=%d: gathering is complete but the nil marker was never reported (%d candidates reported)",
-						label, pool, len(evs)), idx, map[string]any{"schedule": label, "pool": pool, "events": c24Lines(evs)})
-					run.Case(fmt.Sprintf("%s|pool%d|no-nil", label, pool), true)
+		if !kit.Eventually(wd, func() bool { return pc.ICEGatheringState() == ICEGatheringStateComplete }) {
+			run.Inconclusive("gathering-not-complete:" + label)
 
-					return
-				}
-			} else {
-				run.Inconclusive("gathering-not-complete:" + label)
-
-				return
-			}
+			return
 		}
+		gotNil := awaitNil(pc, rec)
 		time.Sleep(15 * time.Millisecond) // settle: surplus events can only add to the log
 		evs := rec.snapshot()
 		// reference: what the pion/ice agent itself gathered (no webrtc-level conversion on this side)
@@ -255,6 +525,38 @@ func TestVerifC24(t *testing.T) { //nolint:cyclop,gocognit,maintidx
 		want := map[string]int{}
 		for _, c := range local {
 			want[c24KeyOfGathered(c)]++
+		}
+		yield := "ncand"
+		switch len(local) {
+		case 0:
+			yield = "0cand"
+		case 1:
+			yield = "1cand"
+		}
+		// signatures: schedule; in the configuration class also pool and observed yield (the schedules of part (a) fix both)
+		sfx := label
+		if cfg.cls {
+			sfx = fmt.Sprintf("%s:pool%d:%s", label, pool, yield)
+			run.Count("class_cases", 1)
+			run.Seen("class_yield_pool_order", fmt.Sprintf("%s|pool%d|%s", yield, pool, order))
+			run.Seen("class_yield_by_schedule", label+"|"+yield)
+			run.Seen("class_gather_knobs", "policy="+cfg.g.policy)
+			run.Seen("class_gather_knobs", "iface="+cfg.g.iface)
+			run.Seen("class_gather_knobs", "ipf="+cfg.g.ipf)
+			run.Seen("class_gather_knobs", fmt.Sprintf("loopback=%v", cfg.g.loop))
+			run.Seen("class_gather_knobs", "nets="+cfg.g.nets)
+			run.Seen("class_gather_knobs", "nat="+cfg.g.nat)
+			run.Seen("class_gather_knobs", fmt.Sprintf("tcpmux=%v", cfg.g.tcpMux))
+			run.Seen("class_gather_configs", cfg.g.String())
+			run.Seen("class_candidate_counts", fmt.Sprintf("%d", len(local)))
+		}
+		if !gotNil && len(evs) == len(rec.snapshot()) && rec.nils() == 0 {
+			run.Violation("no-end-of-gathering:"+sfx, fmt.Sprintf("%s pool=%d: gathering is complete (%d candidate(s) gathered, %s) but the nil marker was never reported (%d candidates reported)",
+				label, pool, len(local), order, len(evs)), idx, map[string]any{"schedule": label, "pool": pool, "gather_config": cfg.g.String(), "gated": cfg.gated,
+				"order": order, "events": c24Lines(evs), "gatherer_candidates": keysOf(want)})
+			run.Case(fmt.Sprintf("%s|pool%d|%s|no-nil", label, pool, yield), true)
+
+			return
 		}
 		got := map[string]int{}
 		nils, afterNil, firstNil := 0, 0, -1
@@ -281,26 +583,31 @@ func TestVerifC24(t *testing.T) { //nolint:cyclop,gocognit,maintidx
 			}
 		}
 		desc := fmt.Sprintf("%s|pool%d|%s", label, pool, strings.Join(shape, " "))
-		run.Case(desc, len(got) >= 1 && nils >= 1 && (pool > 0 || scripted))
+		run.Case(desc, nils >= 1 && (pool > 0 || scripted))
 		run.Count("handler_events", len(evs))
 		run.Seen("event_shapes", fmt.Sprintf("pool%d:%dcand+%dnil", pool, len(evs)-nils, nils))
 		detail := map[string]any{"schedule": label, "pool": pool, "events": c24Lines(evs), "gatherer_candidates": keysOf(want)}
+		if cfg.cls {
+			detail["gather_config"] = cfg.g.String()
+			detail["gated"] = cfg.gated
+			detail["order"] = order
+		}
 		if nils > 1 {
-			run.Violation("end-of-gathering-twice:"+label, fmt.Sprintf("%s: nil marker reported %d times: %s", desc, nils, strings.Join(shape, " ")), idx, detail)
+			run.Violation("end-of-gathering-twice:"+sfx, fmt.Sprintf("%s: nil marker reported %d times: %s", desc, nils, strings.Join(shape, " ")), idx, detail)
 		}
 		if afterNil > 0 {
-			run.Violation("candidate-after-end-of-gathering:"+label, fmt.Sprintf("%s: %d candidate(s) reported after the nil marker: %s", desc, afterNil, strings.Join(shape, " ")), idx, detail)
+			run.Violation("candidate-after-end-of-gathering:"+sfx, fmt.Sprintf("%s: %d candidate(s) reported after the nil marker: %s", desc, afterNil, strings.Join(shape, " ")), idx, detail)
 		}
 		for c, n := range got {
 			if n > 1 && n > want[c] { // (two gathered candidates with one identity cannot be told apart: not judged)
-				run.Violation("candidate-twice:"+label, fmt.Sprintf("%s: candidate %q reported %d times", desc, c, n), idx, detail)
+				run.Violation("candidate-twice:"+sfx, fmt.Sprintf("%s: candidate %q reported %d times", desc, c, n), idx, detail)
 
 				break
 			}
 		}
 		for c, n := range want {
 			if got[c] == 0 || got[c] < n {
-				run.Violation("candidate-never-reported:"+label, fmt.Sprintf("%s: gathered candidate %q was never reported", desc, c), idx, detail)
+				run.Violation("candidate-never-reported:"+sfx, fmt.Sprintf("%s: gathered candidate %q was never reported", desc, c), idx, detail)
 
 				break
 			}
@@ -312,41 +619,46 @@ func TestVerifC24(t *testing.T) { //nolint:cyclop,gocognit,maintidx
 				break
 			}
 		}
-		if idx%9 == 0 {
-			run.Sample(map[string]any{"schedule": label, "pool": pool, "shape": strings.Join(shape, " ")})
+		if (!cfg.cls && idx%60 == 0) || (cfg.cls && idx%29 == 0) {
+			smp := map[string]any{"schedule": label, "pool": pool, "shape": strings.Join(shape, " ")}
+			if cfg.cls {
+				smp["gather_config"] = cfg.g.String()
+				smp["order"] = order
+			}
+			run.Sample(smp)
 		}
 	}
 
 	type script struct {
 		name string
-		f    func() (pc *PeerConnection, rec *c24Rec, ok bool)
+		f    func(cfg c24Cfg) (pc *PeerConnection, rec *c24Rec, ok bool)
 	}
-	parkNil := func(point string) func() (*PeerConnection, *c24Rec, bool) {
-		return func() (*PeerConnection, *c24Rec, bool) {
+	parkNil := func(point string) func(c24Cfg) (*PeerConnection, *c24Rec, bool) {
+		return func(cfg c24Cfg) (*PeerConnection, *c24Rec, bool) {
 			rec := &c24Rec{}
 			sched.Block(point, 1)
-			pc := newPC(1, rec) // pool: gathering starts now, candidates are pooled
-			if !sched.WaitReached(point, wd) {
+			pc := newPC(1, rec, cfg, false) // pool: gathering starts now, candidates are pooled
+			if pc == nil || !sched.WaitReached(point, wd) {
 				return pc, rec, false
 			}
-			err := setLocal(pc) // flush while the end-of-gathering callback is parked
+			err := setLocal(pc, rec) // flush while the end-of-gathering callback is parked
 			sched.Release(point)
 
 			return pc, rec, err == nil
 		}
 	}
-	parkFlush := func(point string) func() (*PeerConnection, *c24Rec, bool) {
-		return func() (*PeerConnection, *c24Rec, bool) {
+	parkFlush := func(point string) func(c24Cfg) (*PeerConnection, *c24Rec, bool) {
+		return func(cfg c24Cfg) (*PeerConnection, *c24Rec, bool) {
 			rec := &c24Rec{}
 			sched.Block("gather.nil.stateComplete", 1) // hold the end of gathering until the flush is parked
-			pc := newPC(1, rec)
-			if !sched.WaitReached("gather.nil.stateComplete", wd) {
+			pc := newPC(1, rec, cfg, false)
+			if pc == nil || !sched.WaitReached("gather.nil.stateComplete", wd) {
 				return pc, rec, false
 			}
 			// NOTE: the gatherer state is already "complete" here (the point sits right after setState)
 			sched.Block(point, 1)
 			done := make(chan error, 1)
-			go func() { done <- setLocal(pc) }()
+			go func() { done <- setLocal(pc, rec) }()
 			if !sched.WaitReached(point, wd) {
 				sched.Release("gather.nil.stateComplete")
 
@@ -369,16 +681,24 @@ func TestVerifC24(t *testing.T) { //nolint:cyclop,gocognit,maintidx
 	scripts := []script{
 		{"nil-parked@stateComplete|flush", parkNil("gather.nil.stateComplete")},
 		{"nil-parked@beforePoolCheck|flush", parkNil("gather.nil.beforePoolCheck")},
-		{"renegotiate-after-completion", func() (*PeerConnection, *c24Rec, bool) {
-			// a later SetLocalDescription (no ICE restart) flushes again: the nil marker must not be reported again
+		{"renegotiate-after-completion", func(cfg c24Cfg) (*PeerConnection, *c24Rec, bool) {
+			// a later SetLocalDescription (no ICE restart) flushes again: the nil marker must not be reported again (and one
+			// that is still owed must not get lost)
 			rec := &c24Rec{}
-			pc := newPC(uint8(len(rec.evs)), rec)
-			if setLocal(pc) != nil {
+			pc := newPC(cfg.pool, rec, cfg, false)
+			if pc == nil {
 				return pc, rec, false
 			}
-			if !kit.Eventually(wd, func() bool { return pc.ICEGatheringState() == ICEGatheringStateComplete && rec.nils() >= 1 }) {
+			if cfg.pool > 0 && cfg.afterEnd {
+				kit.Eventually(2*time.Second, func() bool { return c24NilDecided(pc) })
+			}
+			if setLocal(pc, rec) != nil {
 				return pc, rec, false
 			}
+			if !kit.Eventually(wd, func() bool { return pc.ICEGatheringState() == ICEGatheringStateComplete }) {
+				return pc, rec, false
+			}
+			awaitNil(pc, rec) // (a missing nil is for evaluate to report)
 			ans, err := jsepHelperAnswer(*pc.LocalDescription())
 			if err != nil || pc.SetRemoteDescription(ans) != nil {
 				return pc, rec, false
@@ -387,37 +707,45 @@ func TestVerifC24(t *testing.T) { //nolint:cyclop,gocognit,maintidx
 				return pc, rec, false
 			}
 
-			return pc, rec, setLocal(pc) == nil
+			return pc, rec, setLocal(pc, rec) == nil
 		}},
 		{"flush-parked@poolTaken|gathering-completes", parkFlush("flush.poolTaken")},
 		{"flush-parked@stateRead|gathering-completes", parkFlush("flush.stateRead")},
 		{"flush-parked@candidatesEmitted|gathering-completes", parkFlush("flush.candidatesEmitted")},
-		{"flush-before-any-candidate", func() (*PeerConnection, *c24Rec, bool) {
+		{"flush-before-any-candidate", func(cfg c24Cfg) (*PeerConnection, *c24Rec, bool) {
 			rec := &c24Rec{}
 			sched.Block("gather.cand.beforeEmit", 0)
-			pc := newPC(1, rec)
-			err := setLocal(pc) // pool still empty or partially filled; later candidates bypass the pool
+			pc := newPC(1, rec, cfg, false)
+			if pc == nil {
+				return pc, rec, false
+			}
+			err := setLocal(pc, rec) // pool still empty or partially filled; later candidates bypass the pool
 			sched.Release("gather.cand.beforeEmit")
 
 			return pc, rec, err == nil
 		}},
-		{"flush-after-completion", func() (*PeerConnection, *c24Rec, bool) {
+		{"flush-after-completion", func(cfg c24Cfg) (*PeerConnection, *c24Rec, bool) {
 			rec := &c24Rec{}
-			pc := newPC(1, rec)
-			if !kit.Eventually(wd, func() bool { return pc.iceGatherer.State() == ICEGathererStateComplete }) {
+			pc := newPC(1, rec, cfg, false)
+			if pc == nil || !kit.Eventually(wd, func() bool { return pc.iceGatherer.State() == ICEGathererStateComplete }) {
 				return pc, rec, false
 			}
+			kit.Eventually(2*time.Second, func() bool { return c24NilDecided(pc) })
 			time.Sleep(5 * time.Millisecond)
 
-			return pc, rec, setLocal(pc) == nil
+			return pc, rec, setLocal(pc, rec) == nil
 		}},
-		{"no-pool", func() (*PeerConnection, *c24Rec, bool) {
+		{"no-pool", func(cfg c24Cfg) (*PeerConnection, *c24Rec, bool) {
 			rec := &c24Rec{}
-			pc := newPC(0, rec)
+			pc := newPC(0, rec, cfg, false)
+			if pc == nil {
+				return pc, rec, false
+			}
 
-			return pc, rec, setLocal(pc) == nil
+			return pc, rec, setLocal(pc, rec) == nil
 		}},
 	}
+	legacy := c24Cfg{g: c24DefaultGather()}
 	reps := kit.N(4, 100)
 	idx := 0
 	for rep := 0; rep < reps; rep++ {
@@ -430,20 +758,16 @@ func TestVerifC24(t *testing.T) { //nolint:cyclop,gocognit,maintidx
 			if rep%2 == 1 {
 				sched.Perturb(0.3)
 			}
-			pc, rec, ok := sc.f()
+			pc, rec, ok := sc.f(legacy)
 			sched.Perturb(0)
 			sched.ReleaseAll()
-			pool := uint8(1)
-			if sc.name == "no-pool" || sc.name == "renegotiate-after-completion" {
-				pool = 0
-			}
 			if !ok {
 				run.Inconclusive("scripted-point-not-reached:" + sc.name)
 			} else {
-				evaluate(idx, sc.name, pool, pc, rec, true)
+				evaluate(idx, sc.name, pc, rec, true, legacy)
 				run.Seen("schedules", sc.name)
 			}
-			rigClose(pc)
+			finish(pc, rec)
 			idx++
 		}
 	}
@@ -458,18 +782,75 @@ func TestVerifC24(t *testing.T) { //nolint:cyclop,gocognit,maintidx
 		r := run.CaseRand(i)
 		rec := &c24Rec{}
 		pool := uint8(r.Intn(2))
-		pc := newPC(pool, rec)
+		pc := newPC(pool, rec, legacy, false)
 		time.Sleep(time.Duration(r.Intn(3000)) * time.Microsecond)
-		if err := setLocal(pc); err != nil {
+		if err := setLocal(pc, rec); err != nil {
 			run.Inconclusive("random-setlocal:" + firstN(err.Error(), 40))
-			rigClose(pc)
+			finish(pc, rec)
 
 			continue
 		}
-		evaluate(i, "random", pool, pc, rec, false)
-		rigClose(pc)
+		evaluate(i, "random", pc, rec, false, legacy)
+		finish(pc, rec)
 	}
 	sched.Perturb(0)
+
+	// ---- configuration class: every schedule above (and two more) x seeded gathering configuration x pool
+	clsScripts := append(append([]script{}, scripts...),
+		script{"flush-before-gathering-cycle", func(cfg c24Cfg) (*PeerConnection, *c24Rec, bool) {
+			// SetLocalDescription returns before the gathering cycle has looked at a single interface (it is held in the
+			// application's interface filter): whatever is gathered, and the end of gathering, come after the flush
+			rec := &c24Rec{}
+			cfg.gated = true
+			pc := newPC(cfg.pool, rec, cfg, true)
+			if pc == nil {
+				return pc, rec, false
+			}
+			err := setLocal(pc, rec)
+			rec.gate.open()
+
+			return pc, rec, err == nil
+		}},
+		script{"random", func(cfg c24Cfg) (*PeerConnection, *c24Rec, bool) {
+			rec := &c24Rec{}
+			pc := newPC(cfg.pool, rec, cfg, false)
+			if pc == nil {
+				return pc, rec, false
+			}
+			time.Sleep(cfg.delay)
+
+			return pc, rec, setLocal(pc, rec) == nil
+		}},
+	)
+	nCls := kit.N(260, 8000)
+	base := nScripted + nRand
+	for i := base; i < base+nCls; i++ {
+		if !run.Want(i) {
+			continue
+		}
+		r := run.CaseRand(i)
+		cfg := c24Cfg{g: c24GenGather(r), gated: r.Chance(0.7), pool: uint8(r.Intn(2)), afterEnd: r.Bool(), cls: true,
+			delay: time.Duration(r.Intn(3000)) * time.Microsecond}
+		k := r.Intn(len(clsScripts) + 2)
+		if k >= len(clsScripts) {
+			k = len(clsScripts) - 1 // three shares of seeded timing
+		}
+		sc := clsScripts[k]
+		sched.Perturb(kit.Pick(r, []float64{0, 0.3, 0.5}))
+		pc, rec, ok := sc.f(cfg)
+		sched.Perturb(0)
+		sched.ReleaseAll()
+		switch {
+		case rec.newErr != nil:
+			run.Inconclusive("class-newpc:" + firstN(rec.newErr.Error(), 40))
+		case !ok:
+			run.Inconclusive("class-scripted-point-not-reached:" + sc.name)
+		default:
+			evaluate(i, sc.name, pc, rec, sc.name != "random", cfg)
+			run.Seen("class_schedules", sc.name)
+		}
+		finish(pc, rec)
+	}
 	run.Set("hook_passes", sched.AllPasses())
 }
 
